@@ -180,14 +180,22 @@ def probe_runs(ctx, r, quick):
             ctx.broken.append({"probe_build_failed": err})
             ctx.violation({"kind": "probe-build-failed", "threaded": threaded}, {"error": err}, no_input=True)
             continue
-        for wi in range(4 if quick else 12):
+        for wi in range(5 if quick else 14):
             kind = ["small", "mixed", "large"][wi % 3]
             items, _ = workload(r, kind)
             items = [(min(sz, 8 << 20), al) for sz, al in items[:40]]
             order = r.below(3)
             rounds = 40 if quick else (2000 if wi < 3 else 200)
             threads = 3 if threaded else 1
-            script = "".join("b %d %d\n" % it for it in items) + "order %d\nrounds %d\nthreads %d\ngo\n" % (order, rounds, threads)
+            foreign = 0
+            if wi >= (4 if quick else 12):
+                # a long-lived foreign mapping before every round and blocks above the trim threshold: every round the
+                # allocator's new segment is not adjacent to its old ones, the trimmed old head segment must be unmapped
+                kind, foreign, order = "large+foreign", 4 << 20, 0
+                items = [(3000000, 8), (2500000, 16)] if wi % 2 == 0 else [(2200000, 4096), (5 << 20, 8)]
+                rounds = 60 if quick else 400
+            script = ("".join("b %d %d\n" % it for it in items) +
+                      "order %d\nrounds %d\nthreads %d\nforeign %d\ngo\n" % (order, rounds, threads, foreign))
             p = None
             for attempt in range(2):       # a hang is retried once (seen once, with a thread/join state another check owns)
                 try:
@@ -258,11 +266,19 @@ def run(ctx):
     r = ctx.rng
     nw = 12 if quick else 120
     n = 20 if quick else 60
-    for wi in range(nw):
-        kind = ["small", "mixed", "large"][wi % 3]
-        items, order = workload(r, kind)
-        policy = r.choice("lllllagGh")
-        inter = r.chance(1, 3)
+    # directed: blocks above the trim threshold with every new mapping disjoint from the old ones (as when foreign
+    # mappings sit in between): each round abandons a trimmed head segment that release_unused_segments must unmap
+    directed = [("large", [(3000000, 8), (2500000, 16)], "lifo", "g", False),
+                ("large", [(2200000, 4096), (5 << 20, 8), (70000, 8)], "fifo", "G", False),
+                ("large", [(3 << 20, 8)], "lifo", "g", True)]
+    for wi in range(nw + len(directed)):
+        if wi < len(directed):
+            kind, items, order, policy, inter = directed[wi]
+        else:
+            kind = ["small", "mixed", "large"][wi % 3]
+            items, order = workload(r, kind)
+            policy = r.choice("lllllagGh")
+            inter = r.chance(1, 3)
         lines = rounds_lines(r, items, order, n, policy, inter)
         conc = c03.run_histories(ctx, "rounds-%d" % wi, exe, drv, [lines], judge_factory=lambda n=n: FootJudge(n), timeout=3000)
         if conc is None:
